@@ -265,6 +265,29 @@ class Resolver:
             return T(e.value)
         return ("expr", ast.unparse(e)[:80])
 
+    def term_in_context(self, e):
+        """Term of an expression that may sit inside comprehensions: their variables are bound to the
+        elements of what they iterate (outermost first)."""
+        comps = []
+        x = getattr(e, "_parent", None)
+        child = e
+        while x is not None and x is not self.fn.node:
+            if isinstance(x, (ast.GeneratorExp, ast.ListComp, ast.SetComp, ast.DictComp)):
+                comps.append((x, child))
+            child = x
+            x = getattr(x, "_parent", None)
+        if not comps:
+            return self.term(e)
+        ce = {}
+        at = self._at(comps[-1][0]) if self.flow else None
+        for comp, inner in reversed(comps):
+            for g in comp.generators:
+                if inner is g.iter or any(inner is y for y in ast.walk(g.iter)):
+                    break  # e is (inside) this generator's iterable: later variables are not bound yet
+                it = self.term(g.iter, frozenset(), 0, ce, at)
+                self._bind_comp(g.target, it[1] if it[0] == "gen" else ("elem", it), ce)
+        return self.term(e, frozenset(), 0, ce, at)
+
     def _local_generator(self, g):
         """A call of a parameterless local generator function with a single `yield <expr>` is the generator
         of that expression: ('gen', term of the yielded expression, ()).  Closure variables are resolved
